@@ -85,6 +85,13 @@ void check_lookups(Ctx &c, const std::string &where, ndsize_t count, const std::
                    bool named) {
     if (!c.opt->check_lookups) return;
     if (count != all.size()) c.bad("C03.agree " + where + ": count " + std::to_string((unsigned long long) count) + " != enumeration " + std::to_string(all.size()));
+    // negative lookups: a name / id nobody has must not be found (and must not crash)
+    try {
+        if (has_str("no-such-entity-name")) c.bad("C03.agree " + where + ": has(name) true for a name no member has");
+        if (has_str("0f0f0f0f-dead-4bad-8bad-00000000beef")) c.bad("C03.agree " + where + ": has(id) true for an id no member has");
+        E none_e = by_str("no-such-entity-name");
+        if (none_e) c.bad("C03.agree " + where + ": get(name) returned an entity for a name no member has");
+    } catch (const std::exception &) { /* refusing with an exception is fine */ }
     std::set<std::string> names, ids;
     for (size_t i = 0; i < all.size(); i++) {
         std::string id, name;
